@@ -39,7 +39,7 @@ pub fn check() -> Check {
         spec: CheckSpec {
             prop: "C09",
             level: "exploration",
-            rule: "round trip: seeded generator over every protocol type/variant (UniPayload, BiPayload, SyncMessage x5, SyncStateV1, SyncNeedV1 x3, Changeset x3, Change, SqliteValue incl. NaN/inf/-0/i64 extremes/empty and large text+blob, default_on_eof fields absent) -> encode -> real decoder -> re-encode must be byte-identical; pack_columns compared byte-for-byte with the loaded extension's crsql_pack_columns and unpack(pack(v))==v (0..=255 columns); hostile: structure-aware mutations of valid frames (every tag/length byte position, 32/64-bit length attacks up to 2^64-1, truncation at every length, splices between message types, UTF-8 damage incl. 24-byte texts with every last byte) and raw random bytes fed to the three real decode entry points and unpack_columns inside a child process (RLIMIT_AS 4 GiB, counting allocator, panic capture); non-trivial = hostile input that is not byte-identical to a valid frame, or a round-trip value with a non-empty payload; distinct by hash of the bytes",
+            rule: "round trip: seeded generator over every protocol type/variant (UniPayload, BiPayload, SyncMessage x5, SyncStateV1, SyncNeedV1 x3, Changeset x3, Change, SqliteValue incl. NaN/inf/-0/i64 extremes/empty and large text+blob, default_on_eof fields absent) -> encode -> real decoder -> re-encode must be byte-identical; pack_columns compared byte-for-byte with the loaded extension's crsql_pack_columns and unpack(pack(v))==v (0..=255 columns); hostile: structure-aware mutations of valid frames (every tag/length byte position, 32/64-bit length attacks up to 2^64-1, truncation at every length, splices between message types, UTF-8 damage incl. 24-byte texts with every last byte) and raw random bytes fed to the three real decode entry points and unpack_columns inside a child process (RLIMIT_AS 4 GiB, counting allocator, panic capture); interpreter/sanitizer stage: the pure-Rust paths (all decoders on mutated frames and raw bytes, pack/unpack round trip, ChunkedChanges, compute_available_needs, Members) run under Miri in 8 shards of /verif/miri (observations sanitizer.miri_*), and a batch of hostile inputs is decoded by the child under valgrind memcheck (sanitizer.valgrind_*); an Undefined Behavior report or a memcheck error is a violation, a tool that cannot run is inconclusive; non-trivial = hostile input that is not byte-identical to a valid frame, or a round-trip value with a non-empty payload; distinct by hash of the bytes",
             assumptions: &[
                 "allocation bound used as the meaning of 'memory unrelated to the input size': bytes requested during one decode <= 64*len + 64 KiB",
                 "inputs up to ~2 MiB are executed; the 100 MiB frame limit is represented by length-field attacks",
@@ -57,6 +57,9 @@ pub fn check() -> Check {
                 "hostile.mut.truncate",
                 "hostile.mut.utf8",
                 "hostile.mut.tag",
+                "sanitizer.miri_shards",
+                "sanitizer.miri_operations",
+                "sanitizer.valgrind_inputs",
             ],
         },
         budget: (40, 420),
@@ -1154,6 +1157,133 @@ fn run(ctx: &mut Ctx) {
             let (t, b, m) = (*t, b.clone(), *m);
             ctx.sample(|| json!({"kind": "hostile", "target": target_name(t), "mutation": format!("{m:?}"), "bytes_hex": hex(&b)}));
         }
+    }
+
+    // ---- 4. interpreter / sanitizer stage (both tiers; VH_NO_SANITIZERS=1 skips it)
+    if std::env::var_os("VH_NO_SANITIZERS").is_none() {
+        if ctx.worker == 0 {
+            miri_stage(ctx);
+        }
+        if ctx.worker == 1 || ctx.workers == 1 {
+            valgrind_stage(ctx, &mut rng);
+        }
+    }
+}
+
+/// the pure-Rust paths under Miri: /verif/miri is a tiny crate over klukai-types (path
+/// dependency on /repo, so it is rebuilt from the working tree) run as parallel shards
+fn miri_stage(ctx: &mut Ctx) {
+    let shards = 8u64;
+    let cases = if ctx.tier == crate::common::Tier::Thorough { 40 } else { 6 };
+    // build once (serialised by cargo anyway), then the shards run in parallel
+    let build = Command::new("cargo")
+        .args(["+nightly", "miri", "run", "-q", "--", "1", "0"])
+        .current_dir("/verif/miri")
+        .env("CARGO_NET_OFFLINE", "true")
+        .env("MIRIFLAGS", "-Zmiri-disable-isolation")
+        .env_remove("CARGO_TARGET_DIR")
+        .stdout(Stdio::null())
+        .stderr(Stdio::piped())
+        .output();
+    match build {
+        Ok(o) if o.status.success() => {}
+        Ok(o) => {
+            ctx.inconclusive(format!("miri build failed: {}", truncate(&String::from_utf8_lossy(&o.stderr), 300)));
+            return;
+        }
+        Err(e) => {
+            ctx.inconclusive(format!("miri not runnable: {e}"));
+            return;
+        }
+    }
+    let mut children = vec![];
+    for sh in 0..shards {
+        let seed = ctx.seed.wrapping_mul(1000).wrapping_add(sh);
+        let c = Command::new("cargo")
+            .args(["+nightly", "miri", "run", "-q", "--", &seed.to_string(), &cases.to_string()])
+            .current_dir("/verif/miri")
+            .env("CARGO_NET_OFFLINE", "true")
+            .env("MIRIFLAGS", "-Zmiri-disable-isolation")
+            .env_remove("CARGO_TARGET_DIR")
+            .stdout(Stdio::piped())
+            .stderr(Stdio::piped())
+            .spawn();
+        match c {
+            Ok(c) => children.push((seed, c)),
+            Err(e) => ctx.inconclusive(format!("miri shard not started: {e}")),
+        }
+    }
+    for (seed, c) in children {
+        let Ok(out) = c.wait_with_output() else {
+            ctx.inconclusive("miri shard lost");
+            continue;
+        };
+        let so = String::from_utf8_lossy(&out.stdout);
+        let se = String::from_utf8_lossy(&out.stderr);
+        ctx.stat("sanitizer.miri_shards", 1);
+        for l in so.lines() {
+            if let Some(n) = l.strip_prefix("MIRI-CASES ") {
+                ctx.stat("sanitizer.miri_operations", n.trim().parse().unwrap_or(0));
+            }
+            if let Some(p) = l.strip_prefix("MIRI-PANIC ") {
+                ctx.violation("decode/panic-or-wrong-result-under-miri", json!({"shard_seed": seed, "what": p}));
+            }
+        }
+        if se.contains("Undefined Behavior") {
+            ctx.stat("sanitizer.miri_ub_reports", 1);
+            let at = se.find("Undefined Behavior").unwrap_or(0);
+            ctx.violation("memory/miri-reports-undefined-behaviour-on-a-pure-rust-path", json!({"shard_seed": seed, "report": truncate(&se[at.saturating_sub(40)..], 1500)}));
+        } else if !out.status.success() {
+            ctx.inconclusive(format!("miri shard {seed} ended with {:?}: {}", out.status.code(), truncate(&se, 300)));
+        }
+    }
+}
+
+/// hostile inputs decoded by the child under valgrind memcheck (no leak check: the
+/// counting allocator and the panic hook keep memory on purpose)
+fn valgrind_stage(ctx: &mut Ctx, rng: &mut impl Rng) {
+    let n = if ctx.tier == crate::common::Tier::Thorough { 1500 } else { 200 };
+    let batch = gen_hostile_batch(rng, n);
+    let mut payload = Vec::new();
+    for (t, b, _) in &batch {
+        payload.push(*t);
+        payload.extend_from_slice(&(b.len() as u32).to_le_bytes());
+        payload.extend_from_slice(b);
+    }
+    let Ok(exe) = std::env::current_exe() else { return };
+    let child = Command::new("valgrind")
+        .args(["-q", "--error-exitcode=97", "--leak-check=no", "--num-callers=12"])
+        .arg(&exe)
+        .args(["decode-batch", "4096"])
+        .stdin(Stdio::piped())
+        .stdout(Stdio::piped())
+        .stderr(Stdio::piped())
+        .spawn();
+    let mut child = match child {
+        Ok(c) => c,
+        Err(e) => {
+            ctx.inconclusive(format!("valgrind not runnable: {e}"));
+            return;
+        }
+    };
+    let mut stdin = child.stdin.take().unwrap();
+    let w = std::thread::spawn(move || {
+        let _ = stdin.write_all(&payload);
+    });
+    let Ok(out) = child.wait_with_output() else {
+        ctx.inconclusive("valgrind child lost");
+        return;
+    };
+    let _ = w.join();
+    let so = String::from_utf8_lossy(&out.stdout);
+    let se = String::from_utf8_lossy(&out.stderr);
+    let done = so.lines().filter(|l| l.starts_with("R ")).count() as u64;
+    ctx.stat("sanitizer.valgrind_inputs", done);
+    ctx.stat("sanitizer.valgrind_runs", 1);
+    if out.status.code() == Some(97) || se.contains("Invalid read") || se.contains("Invalid write") || se.contains("uninitialised") {
+        ctx.violation("memory/valgrind-memcheck-error-on-a-decode-path", json!({"report": truncate(&se, 2000), "inputs_done": done}));
+    } else if !out.status.success() || done < batch.len() as u64 {
+        ctx.inconclusive(format!("valgrind run ended with {:?} after {done} of {} inputs: {}", out.status.code(), batch.len(), truncate(&se, 300)));
     }
 }
 
